@@ -41,7 +41,7 @@ TARGETS = [('path', 4), ('existing', 4), ('handle', 2), ('dirty_handle', 2), ('b
 
 def gen_plan(rng, tier, index):
     kind = rng.wpick([('rdms', 4), ('data', 3), ('result', 2)])
-    plan = {'kind': kind, 'decorate': rng.subset(['unicode', 'naninf', 'matrix', 'nomeasure', 'floatdesc', 'emptystr', 'ragged', 'emptyarr', 'bigendian'], 0.0, 0.8),
+    plan = {'kind': kind, 'decorate': rng.subset(['unicode', 'naninf', 'matrix', 'nomeasure', 'floatdesc', 'emptystr', 'ragged', 'emptyarr', 'bigendian', 'nonestr'], 0.0, 0.8),
             'dec_seed': rng.randrange(10 ** 6)}
     if kind == 'rdms':
         plan['family'] = gen_family(rng, n_cond=(2, 14) if rng.chance(0.4) else (2, 8), n_rdm=(1, 6))
@@ -315,6 +315,15 @@ def _decorate(obj, plan, kind):
         o.descriptors['count'] = 7
     if 'emptystr' in dec:
         o.descriptors['note'] = ''
+    if 'nonestr' in dec:
+        # strings that spell a special value are still strings
+        o.descriptors['noise_norm'] = 'None'
+        o.descriptors['flagstr'] = 'True'
+        o.descriptors['numstr'] = '1.5'
+        o.descriptors['nanstr'] = 'nan'
+        per_item['lab2'] = ['None' if i % 2 else 'nan' for i in range(n_item)]
+        if kind == 'rdms' and 'nomeasure' not in dec:
+            o.dissimilarity_measure = 'None'
     if 'emptyarr' in dec:
         o.descriptors['excluded'] = np.array([])              # a zero-length array is a value, not an absent one
         o.descriptors['excluded_idx'] = np.array([], dtype=int)
